@@ -60,6 +60,8 @@ type c06History struct {
 	name         string
 	groups       func(tag string) [][]rig.ExecSpec
 	closeOverlap bool
+	// rendezvous histories run (without pauses) over pipes on which a write blocks until the other side reads
+	rendezvous bool
 }
 
 func c06Histories() []c06History {
@@ -74,95 +76,126 @@ func c06Histories() []c06History {
 		return e
 	}
 	return []c06History{
-		{"one", func(t string) [][]rig.ExecSpec { return [][]rig.ExecSpec{{ex(t, "a", "echo", nil)}} }, false},
+		{"one", func(t string) [][]rig.ExecSpec { return [][]rig.ExecSpec{{ex(t, "a", "echo", nil)}} }, false, false},
 		{"serial3", func(t string) [][]rig.ExecSpec {
 			return [][]rig.ExecSpec{{ex(t, "a", "echo", nil)}, {ex(t, "b", "echo2", nil)}, {ex(t, "c", "echo", nil)}}
-		}, false},
+		}, false, false},
 		{"overlap2-then-1", func(t string) [][]rig.ExecSpec {
 			return [][]rig.ExecSpec{{ex(t, "a", "echo", nil), ex(t, "b", "echo2", nil)}, {ex(t, "c", "echo", nil)}}
-		}, false},
+		}, false, false},
 		{"overlap3", func(t string) [][]rig.ExecSpec {
 			return [][]rig.ExecSpec{{ex(t, "a", "echo", nil), ex(t, "b", "echo", nil), ex(t, "c", "sig", nil)}}
-		}, false},
+		}, false, false},
 		{"signals-serial", func(t string) [][]rig.ExecSpec {
 			return [][]rig.ExecSpec{{withSignals(ex(t, "a", "sig", nil), 2)}, {withSignals(ex(t, "b", "sig", nil), 1)}}
-		}, false},
+		}, false, false},
 		{"signals-overlap", func(t string) [][]rig.ExecSpec {
 			return [][]rig.ExecSpec{{withSignals(ex(t, "a", "sig", nil), 2), ex(t, "b", "echo", nil)}, {ex(t, "c", "echo", nil)}}
-		}, false},
+		}, false, false},
 		{"open-signal-channel", func(t string) [][]rig.ExecSpec {
 			// a signal channel that is passed but never used nor closed by the caller until Close
 			a := ex(t, "a", "sig", nil)
 			a.NoSigCh = false
 			return [][]rig.ExecSpec{{a}, {ex(t, "b", "echo", nil)}}
-		}, false},
+		}, false, false},
 		{"step-fatal-then-ok", func(t string) [][]rig.ExecSpec {
 			return [][]rig.ExecSpec{{ex(t, "a", "echo", map[string]any{"mode": "panic"})}, {ex(t, "b", "echo", map[string]any{"mode": "undeclared"})}, {ex(t, "c", "echo", nil)}}
-		}, false},
+		}, false, false},
 		{"errors-overlap", func(t string) [][]rig.ExecSpec {
 			return [][]rig.ExecSpec{{ex(t, "a", "echo", map[string]any{"mode": "badout"}), ex(t, "b", "echo", nil), ex(t, "c", "nosuchstep", nil)}, {ex(t, "d", "echo", map[string]any{"mode": "err"})}}
-		}, false},
+		}, false, false},
 		{"rejected-input-then-ok", func(t string) [][]rig.ExecSpec {
 			bad := rig.ExecSpec{RunID: t + "-a", StepID: "echo", Input: map[string]any{"n": "not a number"}, NoSigCh: true}
 			return [][]rig.ExecSpec{{bad}, {ex(t, "b", "echo", nil)}}
-		}, false},
+		}, false, false},
 		{"unencodable-input-then-ok", func(t string) [][]rig.ExecSpec {
 			// the work-start message cannot be CBOR-encoded (a channel in the input): that Execute fails on the client side
 			bad := rig.ExecSpec{RunID: t + "-a", StepID: "echo", Input: map[string]any{"n": make(chan int)}, NoSigCh: true}
 			return [][]rig.ExecSpec{{bad}, {ex(t, "b", "echo", nil)}}
-		}, false},
+		}, false, false},
 		{"unencodable-input-overlap", func(t string) [][]rig.ExecSpec {
 			bad := rig.ExecSpec{RunID: t + "-a", StepID: "echo", Input: map[string]any{"n": func() {}}, NoSigCh: true}
 			return [][]rig.ExecSpec{{bad, ex(t, "b", "echo", map[string]any{"mode": "gated"})}, {ex(t, "c", "echo", nil)}}
-		}, false},
+		}, false, false},
 		{"unencodable-input-last", func(t string) [][]rig.ExecSpec {
 			bad := rig.ExecSpec{RunID: t + "-b", StepID: "echo", Input: map[string]any{"n": make(chan int)}, NoSigCh: true}
 			return [][]rig.ExecSpec{{ex(t, "a", "echo", nil)}, {bad}}
-		}, false},
+		}, false, false},
 		{"duplicate-run-id-while-running", func(t string) [][]rig.ExecSpec {
 			// the second Execute names a run that is still in flight: it is refused, the first must still finish
 			a := ex(t, "a", "echo", map[string]any{"mode": "gated"})
 			dup := ex(t, "a", "echo2", nil)
 			return [][]rig.ExecSpec{{a, dup}, {ex(t, "b", "echo", nil)}}
-		}, false},
+		}, false, false},
 		{"nan-and-inf-inputs-then-close", func(t string) [][]rig.ExecSpec {
 			return [][]rig.ExecSpec{{ex(t, "a", "echo", map[string]any{"payload": 0.5})}, {ex(t, "b", "echo", map[string]any{"payload": math.NaN()})}, {ex(t, "c", "echo", map[string]any{"payload": []any{math.Inf(1), math.Inf(-1)}})}}
-		}, false},
+		}, false, false},
 		{"nan-input-only", func(t string) [][]rig.ExecSpec {
 			return [][]rig.ExecSpec{{ex(t, "a", "echo", map[string]any{"payload": math.NaN()})}}
-		}, false},
+		}, false, false},
 		{"empty-step-id-overlap", func(t string) [][]rig.ExecSpec {
 			// the server answers an empty step ID with a step-fatal error that carries no run ID
 			return [][]rig.ExecSpec{{ex(t, "a", "", nil), ex(t, "b", "echo", map[string]any{"mode": "gated"})}, {ex(t, "c", "echo", nil)}}
-		}, false},
+		}, false, false},
 		{"empty-step-id-then-slow", func(t string) [][]rig.ExecSpec {
 			return [][]rig.ExecSpec{{ex(t, "a", "", nil)}, {ex(t, "b", "echo", map[string]any{"mode": "gated"})}}
-		}, false},
+		}, false, false},
 		{"slow-serial", func(t string) [][]rig.ExecSpec {
 			return [][]rig.ExecSpec{{ex(t, "a", "echo", map[string]any{"mode": "gated"})}, {ex(t, "b", "echo2", map[string]any{"mode": "gated"})}}
-		}, false},
+		}, false, false},
 		{"slow-overlap", func(t string) [][]rig.ExecSpec {
 			return [][]rig.ExecSpec{{ex(t, "a", "echo", map[string]any{"mode": "gated"}), ex(t, "b", "echo", nil)}, {ex(t, "c", "sig", map[string]any{"mode": "gated"})}}
-		}, false},
+		}, false, false},
 		{"empty-step-id-serial", func(t string) [][]rig.ExecSpec {
 			return [][]rig.ExecSpec{{ex(t, "a", "", nil)}, {ex(t, "b", "echo", nil)}}
-		}, false},
+		}, false, false},
 		{"close-overlaps-2-slow", func(t string) [][]rig.ExecSpec {
 			return [][]rig.ExecSpec{{ex(t, "a", "echo", nil)}, {ex(t, "b", "echo", map[string]any{"mode": "gated"}), ex(t, "c", "echo2", map[string]any{"mode": "gated"})}}
-		}, true},
+		}, true, false},
 		{"close-overlaps-3-mixed", func(t string) [][]rig.ExecSpec {
 			return [][]rig.ExecSpec{{withSignals(ex(t, "a", "sig", map[string]any{"mode": "gated"}), 1), ex(t, "b", "echo", map[string]any{"mode": "panic"}), ex(t, "c", "echo", map[string]any{"mode": "gated"})}}
-		}, true},
+		}, true, false},
 		{"close-overlaps-1-fast", func(t string) [][]rig.ExecSpec {
 			return [][]rig.ExecSpec{{ex(t, "a", "echo", nil)}}
-		}, true},
+		}, true, false},
+		{"rendezvous: close overlaps a run with a backlog of signals for an unknown run", func(t string) [][]rig.ExecSpec {
+			a := ex(t, "a", "sig", map[string]any{"mode": "gated"})
+			a.NoSigCh = false
+			for i := 0; i < 48; i++ {
+				a.Signals = append(a.Signals, schema.Input{RunID: t + "-ghost", ID: "record", InputData: map[string]any{"v": int64(i)}})
+			}
+			return [][]rig.ExecSpec{{a}}
+		}, true, true},
+		{"rendezvous: signals for an unknown run, then more work", func(t string) [][]rig.ExecSpec {
+			a := ex(t, "a", "sig", map[string]any{"mode": "gated"})
+			a.NoSigCh = false
+			for i := 0; i < 12; i++ {
+				a.Signals = append(a.Signals, schema.Input{RunID: t + "-ghost", ID: "record", InputData: map[string]any{"v": int64(i)}})
+			}
+			return [][]rig.ExecSpec{{a, ex(t, "b", "echo", nil), ex(t, "c", "nosuchstep", nil)}, {ex(t, "d", "echo", nil)}}
+		}, false, true},
+		{"rendezvous: burst of failing calls", func(t string) [][]rig.ExecSpec {
+			var g []rig.ExecSpec
+			for i := 0; i < 18; i++ {
+				id := fmt.Sprintf("b%d", i)
+				switch i % 3 {
+				case 0:
+					g = append(g, ex(t, id, "nosuchstep", nil))
+				case 1:
+					g = append(g, rig.ExecSpec{RunID: t + "-" + id, StepID: "echo", Input: map[string]any{"n": "not a number"}, NoSigCh: true})
+				default:
+					g = append(g, ex(t, id, "echo", nil))
+				}
+			}
+			return [][]rig.ExecSpec{g}
+		}, false, true},
 	}
 }
 
 // c06Judge turns a session result into violations of C06.
 func c06Judge(c *wk.Ctx, prop string, h string, spec rig.SessionSpec, res *rig.SessionResult, points map[int]yieldPoint) bool {
 	wit := map[string]any{"history": h, "schedule": spec.Sched, "schedule_text": describePause(points, spec.Sched), "lifo": spec.Lifo, "pauses_first": spec.PausesFirst,
-		"transport": fmt.Sprintf("c2s=%s s2c=%s", spec.C2S, spec.S2C), "chunk_seed": spec.ChunkSeed}
+		"transport": fmt.Sprintf("c2s=%s s2c=%s", spec.C2S, spec.S2C), "chunk_seed": spec.ChunkSeed, "slow_client_reads": spec.SlowClientReads, "close_after_client_messages": spec.CloseAfterItems}
 	switch res.Monitor.Outcome {
 	case "inconclusive":
 		c.Inconclusive(fmt.Sprintf("history=%s schedule=%v: watchdog fired; still running: %v", h, spec.Sched, res.Monitor.Verdict.RunningDescr) + snapSummary(res.Monitor.Snap))
@@ -179,7 +212,7 @@ func c06Judge(c *wk.Ctx, prop string, h string, spec rig.SessionSpec, res *rig.S
 			c.Inconclusive(fmt.Sprintf("history=%s schedule=%v: only the server's send timer is pending, but no caller is waiting", h, spec.Sched))
 			return false
 		}
-		c.Violation(prop+":callers-wait-for-the-send-timeout", fmt.Sprintf("history %s: Execute %v / Close(returned=%v) wait while every goroutine is blocked and only the plugin's 60 s send timeout can still fire", h, unreturned, res.CloseReturnedAtVerdict), wit)
+		c.Violation(prop+":callers-wait-for-the-send-timeout:"+stallClass(res.Monitor.Snap), fmt.Sprintf("history %s: Execute %v / Close(returned=%v) wait while every goroutine is blocked and only the plugin's 60 s send timeout can still fire (%s)", h, unreturned, res.CloseReturnedAtVerdict, stallClass(res.Monitor.Snap)), wit)
 		return false
 	case "deadlock":
 		var blocked []string
@@ -278,7 +311,11 @@ func runC06(c *wk.Ctx) {
 	for hi, h := range hist {
 		set := map[pa]bool{}
 		for rep := 0; rep < 3; rep++ {
-			res := rig.RunSession(rig.SessionSpec{C2S: modes[rep%2].c2s, S2C: modes[rep%2].s2c, ChunkSeed: uint64(rep + 1), Groups: h.groups(fmt.Sprintf("base%d", rep)), CloseOverlap: h.closeOverlap})
+			bm := modes[rep%2]
+			if h.rendezvous {
+				bm.c2s, bm.s2c = rig.ModeSync, rig.ModeSync
+			}
+			res := rig.RunSession(rig.SessionSpec{C2S: bm.c2s, S2C: bm.s2c, ChunkSeed: uint64(rep + 1), Groups: h.groups(fmt.Sprintf("base%d", rep)), CloseOverlap: h.closeOverlap})
 			if res.Monitor.Outcome != "done" {
 				// the unperturbed history itself does not complete: judged as a case below (schedule empty)
 				continue
@@ -308,12 +345,58 @@ func runC06(c *wk.Ctx) {
 	}
 	var cases []caseRef
 	for hi := range hist {
+		if hist[hi].rendezvous {
+			for k := 0; k < 24; k++ {
+				cases = append(cases, caseRef{hi, 3, k, 0})
+			}
+			// and every reached statement paused singly, on rendezvous pipes in both directions
+			for k := range singles[hi] {
+				cases = append(cases, caseRef{hi, 4, k, k % 2})
+			}
+			continue
+		}
 		cases = append(cases, caseRef{hi, 0, 0, 0})
 		for k := range singles[hi] {
 			cases = append(cases, caseRef{hi, 1, k, 0}, caseRef{hi, 1, k, 1})
 		}
 		for k := 0; k < npairs; k++ {
 			cases = append(cases, caseRef{hi, 2, k, -1})
+		}
+	}
+	// Signal traffic from the step to the client: the SDK's own server never emits signals, so a scripted peer (the
+	// fault-free transcripts of the C08 check that carry emitted signals) plays the plugin; no pause, and every
+	// statement of the client these sessions reach paused singly.
+	var peerTs []c08Transcript
+	for _, t := range c08Transcripts() {
+		if t.name == "v3-concurrent-signals-errors" || t.lateRecv {
+			peerTs = append(peerTs, t)
+		}
+	}
+	peerSingles := make([][]pa, len(peerTs))
+	for ti := range peerTs {
+		c08Sched = []pa{}
+		res := c08Replay(&peerTs[ti], c08Fault{kind: rig.FaultNone, failWrites: -1}, rig.ModeBuffered, 1)
+		c08Sched = nil
+		if res.monitor.Outcome != "done" {
+			continue
+		}
+		for p, n := range res.hits {
+			for k := 1; k <= n && k <= 4; k++ {
+				peerSingles[ti] = append(peerSingles[ti], pa{Point: p, Hit: k})
+			}
+		}
+		sort.Slice(peerSingles[ti], func(i, j int) bool {
+			a, b := peerSingles[ti][i], peerSingles[ti][j]
+			if a.Point != b.Point {
+				return a.Point < b.Point
+			}
+			return a.Hit < b.Hit
+		})
+		for m := 0; m < 3; m++ {
+			cases = append(cases, caseRef{ti, 5, -1, m})
+		}
+		for k := range peerSingles[ti] {
+			cases = append(cases, caseRef{ti, 5, k, k % 3})
 		}
 	}
 	c.Floor("sessions", 50)
@@ -323,10 +406,67 @@ func runC06(c *wk.Ctx) {
 	sigs := map[uint64]bool{}
 	c.Cases(int64(len(cases)), func(idx int64, r *wk.Rand) {
 		cr := cases[idx]
+		if cr.kind == 5 {
+			t := &peerTs[cr.h]
+			sched := []pa{}
+			if cr.k >= 0 {
+				sched = append(sched, peerSingles[cr.h][cr.k])
+			}
+			mode := []rig.Mode{rig.ModeBuffered, rig.ModeChunked, rig.ModeSync}[cr.pf]
+			seed := r.U64()
+			c.Note(fmt.Sprintf("scripted-peer=%s sched=%v mode=%s", t.name, sched, mode))
+			c08Sched, c08SchedLifo = sched, r.Bool()
+			res := c08Replay(t, c08Fault{kind: rig.FaultNone, failWrites: -1}, mode, seed)
+			c08Sched = nil
+			c.Count("sessions")
+			c.Count("scripted_peer_sessions")
+			c.Count("scripted-peer:" + t.name)
+			if res.pauses > 0 {
+				c.Count("sessions_with_effective_pause")
+				c.Count("scripted_peer_sessions_with_effective_pause")
+			}
+			c.Eval(wk.Hash64("peer", t.name, fmt.Sprint(sched), mode.String()), res.pauses > 0)
+			wit := map[string]any{"scripted_peer_transcript": t.name, "schedule": sched, "schedule_text": describePause(points, sched), "transport": "c2s=buffered s2c=" + mode.String(), "chunk_seed": seed, "lifo": c08SchedLifo}
+			switch res.monitor.Outcome {
+			case "inconclusive":
+				c.Inconclusive(fmt.Sprintf("scripted peer %s schedule=%v: watchdog fired; still running: %v", t.name, sched, res.monitor.Verdict.RunningDescr) + snapSummary(res.monitor.Snap))
+				return
+			case "deadlock":
+				var blocked []string
+				seen := map[string]bool{}
+				for _, g := range res.monitor.Snap.BlockedIn("pluginsdk/atp.", res.baseGID) {
+					f := g.State + "@" + shortFrame(g)
+					if !seen[f] {
+						seen[f] = true
+						blocked = append(blocked, f)
+					}
+				}
+				sort.Strings(blocked)
+				wit["goroutines"] = res.monitor.Snap.Detail()
+				c.Violation("C06:scripted-peer-hang:"+strings.Join(blocked, "|"), fmt.Sprintf("scripted peer %s: every goroutine is blocked, Close returned: %v", t.name, res.closeReturned), wit)
+				return
+			}
+			if res.panicMsg != "" {
+				wit["stack"] = clipStr(res.panicStack, 5000)
+				c.Violation("C06:panic:"+panicSiteFromStack(res.panicStack), res.panicMsg, wit)
+				return
+			}
+			for _, e := range res.execs {
+				if n := atomic.LoadInt32(&e.Returned); n != 1 {
+					c.Violation("C06:execute-return-count", fmt.Sprintf("scripted peer %s: Execute(%s) returned %d times", t.name, e.Spec.RunID, n), wit)
+				} else if e.Result.Error != nil && t.expectID[e.Spec.RunID] != "" {
+					c.Violation("C06:scripted-peer-execute-failed", fmt.Sprintf("scripted peer %s: Execute(%s) failed on a healthy connection: %v", t.name, e.Spec.RunID, e.Result.Error), wit)
+				}
+			}
+			if !res.closeReturned {
+				c.Violation("C06:close-did-not-return", "scripted peer "+t.name, wit)
+			}
+			return
+		}
 		h := hist[cr.h]
 		var sched []pa
 		switch cr.kind {
-		case 1:
+		case 1, 4:
 			sched = []pa{singles[cr.h][cr.k]}
 		case 2:
 			if len(singles[cr.h]) >= 2 {
@@ -336,7 +476,24 @@ func runC06(c *wk.Ctx) {
 			}
 		}
 		m := modes[r.Intn(len(modes))]
+		if cr.kind == 3 {
+			rv := []struct{ c2s, s2c rig.Mode }{{rig.ModeSync, rig.ModeSync}, {rig.ModeSync, rig.ModeBuffered}, {rig.ModeBuffered, rig.ModeSync}}
+			m = rv[cr.k%len(rv)]
+			c.Count("rendezvous_sessions")
+		}
+		if cr.kind == 4 {
+			m.c2s, m.s2c = rig.ModeSync, rig.ModeSync
+			c.Count("rendezvous_sessions_with_a_pause")
+		}
 		spec := rig.SessionSpec{C2S: m.c2s, S2C: m.s2c, ChunkSeed: r.U64(), Groups: h.groups(fmt.Sprintf("c%d", idx)), Sched: sched, Lifo: r.Bool(), CloseOverlap: h.closeOverlap, PausesFirst: r.Bool()}
+		if cr.kind == 3 && cr.k >= 12 {
+			// the client's read loop as the slowest stage: the plugin's replies queue up
+			spec.SlowClientReads = []int{1000, 4000, 16000}[(cr.k/3)%3]
+			c.Count("rendezvous_sessions_with_a_slow_client_reader")
+			if h.closeOverlap {
+				spec.CloseAfterItems = 8 + 3*(cr.k%4)
+			}
+		}
 		if cr.pf >= 0 {
 			spec.PausesFirst = cr.pf == 1
 		}
